@@ -44,12 +44,16 @@ where
         debug_assert!(val.is_finite(), "value must be finite");
 
         if self.q_vals.len() >= self.window_len {
-            let old_val = self.q_vals.pop_front().unwrap();
-            self.sum = self.sum - old_val;
+            self.q_vals.pop_front();
+            self.q_vals.push_back(val);
+            // Sum the window afresh. Subtracting the leaving value instead would keep the rounding
+            // residue of every large value that ever passed through the window, so the average of
+            // small values could end up outside of their range.
+            self.sum = self.q_vals.iter().fold(T::zero(), |sum, v| sum + *v);
+        } else {
+            self.q_vals.push_back(val);
+            self.sum = self.sum + val;
         }
-        self.q_vals.push_back(val);
-
-        self.sum = self.sum + val;
     }
 
     fn last(&self) -> Option<T> {
